@@ -37,6 +37,8 @@ type Env struct {
 	N     int
 	Image []byte // a valid SQLite file (the database when it held only row A)
 	seq   int
+
+	dumpKey, dumpVal map[string]string
 }
 
 // Boot starts an n-node cluster whose nodes all use creds (nil = no credential
@@ -213,7 +215,7 @@ func (e *Env) State() (*State, error) {
 			st.Snaps = append(st.Snaps, -1)
 			continue
 		}
-		d, err := e.S.DumpNode(n)
+		d, err := e.dump(n)
 		if err != nil {
 			return nil, fmt.Errorf("dump %s: %w", n.ID, err)
 		}
@@ -234,6 +236,32 @@ func (e *Env) State() (*State, error) {
 		st.Leader = l.ID
 	}
 	return st, nil
+}
+
+// dump is DumpNode with a cache: the independent dump is recomputed only when
+// the database file or its WAL changed on disk (size or modification time)
+// since the last dump of that node. The key is never logged.
+func (e *Env) dump(n *node.Node) (string, error) {
+	key := ""
+	for _, f := range []string{"db.sqlite", "db.sqlite-wal"} {
+		if fi, err := os.Stat(filepath.Join(n.Dir, f)); err == nil {
+			key += fmt.Sprintf("%s:%d:%d;", f, fi.Size(), fi.ModTime().UnixNano())
+		} else {
+			key += f + ":absent;"
+		}
+	}
+	if e.dumpKey == nil {
+		e.dumpKey, e.dumpVal = map[string]string{}, map[string]string{}
+	}
+	if e.dumpKey[n.ID] == key {
+		return e.dumpVal[n.ID], nil
+	}
+	d, err := e.S.DumpNode(n)
+	if err != nil {
+		return "", err
+	}
+	e.dumpKey[n.ID], e.dumpVal[n.ID] = key, d
+	return d, nil
 }
 
 func countSnapshots(dir string) int {
